@@ -32,6 +32,14 @@ def worker(kp, job):
     except Exception as e:
         return {'records': [engine.rec('loads', impl='raise:' + type(e).__name__, req=('import', [C1.join(bad), text]), key=text,
                                        viol=[('import', f'loads raised {type(e).__name__}', {'text': text})])]}
+    # every other document: an export WITH options comes first (only notes, a range, another encoding) - the default
+    # export that follows is still the whole grid
+    if idx % 2 == 1:
+        try:
+            kp.dumps(doc, spine_types=['**kern'], encoding=kp.Encoding.eKern)
+            kp.dumps(doc, spine_ids=[0], from_measure=1, to_measure=1)
+        except Exception:
+            pass
     out = docs.impl_dumps(kp, doc)
     if not errs and out.startswith('ok:'):
         allc = spec.all_categories(kp)
